@@ -357,7 +357,13 @@ def check_operation(ctx: Ctx, inp) -> None:
         elif outcome == "timeout":
             ctx.inconclusive_case(f"drawing took longer than {DRAW_TIMEOUT_S}s (budget, not a verdict)")
         elif outcome == "unsatisfiable":
-            ctx.disagree("converse:unsatisfiable", "every declared input has a conforming, sendable witness but generation reports Unsatisfiable", input=inp)
+            narrowed = _length_merge_excludes_witness(plan)
+            if narrowed:
+                # the same rewrite as D27 / D3b (length keywords merged into the quantifiers change the language), here to the point
+                # that no sendable string is left
+                ctx.disagree("converse:unsatisfiable:length-merged-into-the-pattern-excludes-every-sendable-value", f"generation reports Unsatisfiable: {narrowed}", input=inp)
+            else:
+                ctx.disagree("converse:unsatisfiable", "every declared input has a conforming, sendable witness but generation reports Unsatisfiable", input=inp)
         else:
             sig = "converse:" + outcome.split(":")[1] if outcome.startswith("error:") else "converse:" + outcome
             if "InternalError" in sig and "resulted in an invalid regex" in outcome:
@@ -546,6 +552,26 @@ def rewrite_case(draw):
     if lo is None and hi is None:
         hi = len(w) + 1
     return {"pattern": rx.render(node), "min": lo, "max": hi, "start": node[1], "end": node[3], "witness": w}
+
+
+def _length_merge_excludes_witness(plan):
+    """A top-level string parameter / body whose `pattern` + `minLength` / `maxLength` is rewritten by update_quantifier into a
+    pattern the witness (valid under the documented schema) no longer matches."""
+    import re
+
+    from schemathesis.specs.openapi.patterns import update_quantifier
+
+    for item in list(plan["params"]) + list(plan["bodies"]):
+        schema, witness = item.get("schema"), item.get("witness")
+        if not (isinstance(schema, dict) and isinstance(witness, str) and isinstance(schema.get("pattern"), str) and ("minLength" in schema or "maxLength" in schema)):
+            continue
+        try:
+            rewritten = update_quantifier(schema["pattern"], schema.get("minLength"), schema.get("maxLength"))
+            if rewritten != schema["pattern"] and re.search(rewritten, witness) is None and re.search(schema["pattern"], witness) is not None:
+                return f"{schema['pattern']!r} with minLength={schema.get('minLength')} maxLength={schema.get('maxLength')} is rewritten to {rewritten!r}, which the valid value {witness!r} does not match"
+        except Exception:  # noqa: BLE001
+            continue
+    return None
 
 
 def check_rewrite(ctx: Ctx, inp) -> None:
